@@ -18,6 +18,7 @@ import (
 
 func init() {
 	verifRegister("VerifC11Stress", VerifC11Stress)
+	verifRegister("VerifRaceStress", VerifRaceStress)
 }
 
 type c11Gate struct {
@@ -115,4 +116,47 @@ func VerifC11Stress() {
 		verifAssert(err != nil, "C11.reported/parse")
 		verifAssert(verifQuiesce() == 0, "C11.noleak/parse")
 	}
+}
+
+// VerifRaceStress: native-only confirmation of the engine's happens-before race reports (race@...). Built with the
+// Go race detector, every massive-mode operation runs on documents large enough to keep all workers of every stage
+// busy, with sinks that are NOT safe for concurrent use (a plain verifWriter: the library has to serialise its
+// writes) and a thread-safe callback. Nothing is asserted: the race detector's report is the confirmation.
+func VerifRaceStress() {
+	verifContext("C11.race")
+	for _, roots := range []int{2, 3, 12, 40} {
+		doc := c11StressDoc(roots, false)
+		ctx := context.Background()
+		OutputFromMarkdown(newVerifWriter(), strings.NewReader(doc), WithMassive(ctx))
+		OutputFromMarkdown(newVerifWriter(), strings.NewReader(doc), WithMassive(ctx), WithEncodeJSON())
+		OutputFromMarkdown(newVerifWriter(), strings.NewReader(doc), WithMassive(ctx), WithEncodeYAML())
+		OutputFromMarkdown(newVerifWriter(), strings.NewReader(doc), WithMassive(ctx), WithDryRun(), WithFileExtensions([]string{"c"}))
+		var mu sync.Mutex
+		n := 0
+		WalkFromMarkdown(strings.NewReader(doc), func(wn *WalkerNode) error { mu.Lock(); n += len(wn.Row()) + len(wn.Path()); mu.Unlock(); return nil }, WithMassive(ctx))
+		vfsReset()
+		vfsSeal()
+		MkdirFromMarkdown(strings.NewReader(doc), WithMassive(ctx), WithTargetDir(vfsTarget()), WithFileExtensions([]string{"c"}))
+		VerifyFromMarkdown(strings.NewReader(doc), WithMassive(ctx), WithTargetDir(vfsTarget()), WithStrictVerify())
+		// malformed blocks: the error paths of every stage
+		OutputFromMarkdown(newVerifWriter(), strings.NewReader(c11StressDoc(roots, true)), WithMassive(ctx))
+		OutputFromMarkdown(newVerifWriter(), strings.NewReader(doc+"- x\n  - a/b\n"), WithMassive(ctx), WithDryRun())
+		// heading roots
+		OutputFromMarkdown(newVerifWriter(), strings.NewReader(strings.ReplaceAll(strings.ReplaceAll(doc, "  - ", "- "), "- r", "# r")), WithMassive(ctx))
+	}
+	root := NewRoot("r")
+	cur := root
+	for i := 0; i < 8; i++ {
+		cur.Add("s")
+		cur = cur.Add("c")
+	}
+	ctx := context.Background()
+	OutputFromRoot(newVerifWriter(), root, WithMassive(ctx))
+	OutputFromRoot(newVerifWriter(), root, WithMassive(ctx), WithEncodeJSON())
+	WalkFromRoot(root, func(*WalkerNode) error { return nil }, WithMassive(ctx))
+	vfsReset()
+	vfsSeal()
+	MkdirFromRoot(root, WithMassive(ctx), WithTargetDir(vfsTarget()))
+	VerifyFromRoot(root, WithMassive(ctx), WithTargetDir(vfsTarget()))
+	verifQuiesce()
 }
